@@ -313,7 +313,7 @@ static void suite_argvhist(Rng &rng) {
 
 // ---- the real binary
 struct Run { int status; int sig; std::string out; };
-static Run run_bin(const std::vector<std::string> &args) {
+static Run run_bin(const std::vector<std::string> &args, const char *stdin_file = NULL) {
   const char *bin = getenv("WENCRY_BIN");
   Run r{-1, 0, ""};
   int p[2]; if (pipe(p) != 0) return r;
@@ -321,6 +321,7 @@ static Run run_bin(const std::vector<std::string> &args) {
   pid_t pid = fork();
   if (pid == 0) {
     dup2(p[1], 1); dup2(p[1], 2); close(p[0]); close(p[1]);
+    { int in = open(stdin_file ? stdin_file : "/dev/null", O_RDONLY); if (in >= 0) { dup2(in, 0); close(in); } }
     std::vector<std::string> a = args; a.insert(a.begin(), bin);
     std::vector<char *> av; for (auto &s : a) av.push_back((char *)s.c_str()); av.push_back(NULL);
     setenv("ASAN_OPTIONS", "detect_leaks=0:new_delete_type_mismatch=0:exitcode=99", 1);
@@ -503,6 +504,79 @@ static void suite_keyargs(Rng &rng) {
   emitI("keyargs", "key_arguments", S(n));
 }
 
+
+// ---- C18 (and the format of C02) through the interactive dialogue (`Wencry` without arguments): the seed the user types is the seed of
+// the IV chain. The answers are piped in; the file written must be the specification's file for (key, typed seed, plaintext, modes, T = 4).
+#ifndef WENCRY_VERIF_BUF_SZ
+#error "build with -DWENCRY_VERIF_BUF_SZ"
+#endif
+static std::string b64_text(const unsigned char *k, size_t n) { static const char *al = "ABCDEFGHIJKLMNOPQRSTUVWXYZabcdefghijklmnopqrstuvwxyz0123456789+/"; std::string o;
+  for (size_t i = 0; i < n; i += 3) { unsigned v = k[i] << 16 | (i + 1 < n ? k[i + 1] << 8 : 0) | (i + 2 < n ? k[i + 2] : 0);
+    o += al[v >> 18]; o += al[(v >> 12) & 63]; o += i + 1 < n ? al[(v >> 6) & 63] : '='; o += i + 2 < n ? al[v & 63] : '='; }
+  return o; }
+static void suite_dialog(Rng &rng) {
+  if (!getenv("WENCRY_BIN")) { emitI("dialog", "skipped", "no WENCRY_BIN"); return; }
+  long runs = 0; static const char *al = "abcdefghijklmnopqrstuvwxyzABCDEFGHIJKLMNOPQRSTUVWXYZ0123456789!#$%&()*+,-./:;<=>?@[]^_{|}~";
+  auto seed_of = [&](size_t len) { std::string sd(len, 'x'); for (auto &c : sd) c = al[rng.below((uint32_t)strlen(al))]; return sd; };
+  int cfg = 0;
+  for (int c = 0; c <= 4; c++) for (int h = 0; h <= 2; h++) { cfg++; if (!tier_thorough() && c != 0 && (c + h) % 2 == 1 && c != 4) continue;
+    bytes key = rng.buf(16); std::string ktxt = b64_text(key.data(), 16); bytes plain = rng.buf(cfg % 4 == 0 ? 0 : 1 + rng.below(200));
+    write_file("dlg.txt", plain);
+    std::vector<std::string> seeds = { seed_of(1 + rng.below(12)), seed_of(1 + rng.below(12)), seed_of(30 + rng.below(170)) }; seeds.push_back(seeds[0]);
+    std::vector<bytes> files;
+    for (auto &sd : seeds) {
+      std::string in = "e\ndlg.txt\nn\n" + ktxt + "\n" + S(c) + "\n" + S(h) + "\n" + (c != 0 ? sd + "\n" : std::string());
+      write_file("dlg.in", bytes(in.begin(), in.end())); unlink("dlg.txt.wenc");
+      trace_case("dialog", "interactive encryption c=" + S(c) + " h=" + S(h) + " key=" + ktxt + " seed=[" + sd + "] plaintext=" + hex(plain));
+      Run r = run_bin({}, "dlg.in"); runs++;
+      if (r.sig || r.status == 99 || r.status == 98) { emitA("dialog", "C18", "the interactive encryption crashed (signal " + S(r.sig) + ", status " + S(r.status) + "), answers: " + hexs(in)); files.push_back(bytes()); continue; }
+      bytes f = read_file("dlg.txt.wenc"); files.push_back(f);
+      if (r.status != 0) { emitA("dialog", "C18", "the interactive encryption failed with status " + S(r.status) + ", answers: " + hexs(in)); continue; }
+      // ECB: the dialogue asks for no seed and the IV area is unspecified (the code hashes whatever the fresh parameter block holds);
+      // C18 speaks about the non-ECB modes, so only the round trip below is checked there
+      if (c != 0) emitO("dialog", "senc 4 " + S(WENCRY_VERIF_BUF_SZ) + " " + S(c) + " " + S(h) + " " + hex(key) + " " + hexs(sd) + " " + hex(plain), hex(f));
+    }
+    if (c != 0 && files[0].size() >= 48 + 80 && files[1].size() >= 48 + 80 && seeds[0] != seeds[1] && std::equal(files[0].begin() + 48, files[0].begin() + 128, files[1].begin() + 48))
+      emitA("dialog", "C18", "two interactive encryptions with different typed seeds [" + seeds[0] + "] and [" + seeds[1] + "] store the same IVs (c=" + S(c) + " h=" + S(h) + " key=" + ktxt + "): the typed seed does not reach the IV chain");
+    if (c != 0 && files[0] != files[3]) emitA("dialog", "C18", "two interactive encryptions with the same key, seed [" + seeds[0] + "] and plaintext give different files (c=" + S(c) + " h=" + S(h) + ")");
+    // the dialogue's decryption restores the plaintext under the default name F.wdec
+    if (!files[2].empty()) { write_file("dlg.txt.wenc", files[2]); std::string in = "d\ndlg.txt.wenc\nn\n" + ktxt + "\n"; write_file("dlg.in", bytes(in.begin(), in.end())); unlink("dlg.txt.wenc.wdec");
+      trace_case("dialog", "interactive decryption c=" + S(c) + " h=" + S(h) + " key=" + ktxt);
+      Run d = run_bin({}, "dlg.in"); runs++;
+      if (d.sig || d.status != 0 || read_file("dlg.txt.wenc.wdec") != plain) emitA("dialog", "C18", "the file written by the interactive encryption (seed [" + seeds[2] + "], c=" + S(c) + " h=" + S(h) + ") is not restored by the interactive decryption: status " + S(d.status) + " signal " + S(d.sig)); }
+  }
+  emitI("dialog", "runs", S(runs));
+}
+
+// ---- C06 at the command line: the key the user TYPES. Every key text that denotes other 16 bytes than the right key must be refused by -v
+// and -d: all 128 one-bit neighbours and all neighbours that differ in one base64 symbol by one alphabet position ('/' for '+', 'a' for 'Z', ...)
+static void suite_keywrong(Rng &rng) {
+  if (!getenv("WENCRY_BIN")) { emitI("keywrong", "skipped", "no WENCRY_BIN"); return; }
+  static const char *al = "ABCDEFGHIJKLMNOPQRSTUVWXYZabcdefghijklmnopqrstuvwxyz0123456789+/";
+  std::vector<bytes> keys = { bytes(16, 0xff), rng.buf(16) }; { bytes k(16); for (int i = 0; i < 16; i++) k[i] = (unsigned char)("\xfb\xef\xbe"[i % 3]); keys.push_back(k); }
+  { bytes k(16); for (int i = 0; i < 16; i++) k[i] = (unsigned char)("\x01\x96\xb3\xd3\xdf\xbf"[i % 6]); keys.push_back(k); }   // text "AZaz09+/AZaz09+/AZaz0w==": the symbols at the ends of the alphabet runs
+  if (tier_thorough()) for (int i = 0; i < 4; i++) keys.push_back(rng.buf(16));
+  bytes plain = rng.buf(100); write_file("kw.txt", plain); long runs = 0, tried = 0;
+  for (size_t ki = 0; ki < keys.size(); ki++) { const bytes &key = keys[ki]; std::string ktxt = b64_text(key.data(), 16);
+    unlink("kw.wenc"); Run e = run_bin({"-e", "-i", "kw.txt", "-k", ktxt, "-o", "kw.wenc", "--cmode", S((long)(ki % 5)), "--hmode", S((long)(ki % 3))}); runs++;
+    if (e.status != 0) { emitA("keywrong", "C06", "-e with the key text " + ktxt + " failed, status " + S(e.status)); continue; }
+    { Run v = run_bin({"-v", "-i", "kw.wenc", "-k", ktxt}); runs++; if (v.status != 0) emitA("keywrong", "C06", "-v with the right key text " + ktxt + " fails, status " + S(v.status)); }
+    std::vector<std::string> wrong;
+    for (int bit = 0; bit < 128; bit++) { bytes k2 = key; k2[bit / 8] ^= (unsigned char)(0x80 >> (bit % 8)); wrong.push_back(b64_text(k2.data(), 16)); }
+    for (int pos = 0; pos < 21; pos++) for (int dlt : {-1, 1}) { const char *q = strchr(al, ktxt[pos]); if (!q) continue; int idx = (int)(q - al) + dlt; if (idx < 0 || idx > 63) continue; std::string t = ktxt; t[pos] = al[idx]; wrong.push_back(t); }
+    for (size_t w = 0; w < wrong.size(); w++) { if (wrong[w] == ktxt) continue; tried++;
+      trace_case("keywrong", "file encrypted with -k " + ktxt + ", verified with -k " + wrong[w]);
+      Run v = run_bin({"-v", "-i", "kw.wenc", "-k", wrong[w]}); runs++;
+      if (v.sig) emitA("keywrong", "C06", "-v crashed (signal " + S(v.sig) + ") with the key text " + wrong[w]);
+      else if (v.status == 0) { emitA("keywrong", "C06", "wrong key accepted at the command line: the file was encrypted with -k " + ktxt + " and -v accepts -k " + wrong[w] + " (a different 16-byte key)");
+        unlink("kw.out"); Run d = run_bin({"-d", "-i", "kw.wenc", "-k", wrong[w], "-o", "kw.out"}); runs++;
+        if (d.status == 0) emitA("keywrong", "C06", "-d accepts the wrong key text " + wrong[w] + " as well and writes " + S((long)read_file("kw.out").size()) + " bytes"); }
+      else if (w % 16 == 3) { unlink("kw.out"); Run d = run_bin({"-d", "-i", "kw.wenc", "-k", wrong[w], "-o", "kw.out"}); runs++;
+        if (d.status == 0 || !read_file("kw.out").empty()) emitA("keywrong", "C06", "-d with the wrong key text " + wrong[w] + ": status " + S(d.status) + ", " + S((long)read_file("kw.out").size()) + " bytes written"); } }
+  }
+  emitI("keywrong", "wrong_key_texts", S(tried)); emitI("keywrong", "runs", S(runs));
+}
+
 int main(int argc, char **argv) {
   proto_init();
   long seed = env_long("VERIF_SEED", 1);
@@ -521,6 +595,8 @@ int main(int argc, char **argv) {
   if (which == "argvhist") suite_argvhist(rng);
   if (which == "intact") suite_intact(rng);
   if (which == "keyargs") suite_keyargs(rng);
+  if (which == "dialog") suite_dialog(rng);
+  if (which == "keywrong") suite_keywrong(rng);
   fflush(g_proto);
   if (chdir("/") != 0) return 2;
   std::string cmd = "rm -rf '" + scratch + "'"; int rc = system(cmd.c_str()); (void)rc;
